@@ -210,7 +210,7 @@ Definition run_sel (locales selector keys default : sexp) : sexp :=
           let p := Pattern [PlaceableElement (Select sel variants); TextElement [124]; PlaceableElement (Inline sel)] in
           let b := Bundle [(bytes_of_string "NUMBER", EFunction FnNUMBER); ([101], EMessage (Some p) [])] false in
           let fmt := format_pattern true no_function None None (rules_for_locale first_locale) (fun x => x)
-                       unescape_total unescape_total_s f64_from_str_exact b args (fuel_of b p) p in
+                       unescape_total unescape_total_s f64_from_str_exact b args (fuel_of b p) (Some (PKey false [101] None)) p in
           soutcome (fun x => x)
             (let* (t1, sc1) := fmt [] in
              let* (t2, _) := fmt (sc_intls sc1) in
